@@ -44,7 +44,8 @@ type funcContract struct {
 	abstractFloat bool       // float64 + - * / as uninterpreted functions (congruence only)
 	atifs         []*atif     // `atif "cond" iff e`: the branch condition with that source text is equivalent to e where it is evaluated
 	loopCalls     []*loopCall // `loop N calls callee#k`
-	assumeFrame   bool        // assigns clause assumed, not checked (function values of unknown purity are called)
+	owned         []string    // locals holding call results assumed unshared (`owned x`)
+	assumeFrame   bool       // assigns clause assumed, not checked (function values of unknown purity are called)
 	splitReturns  bool     // one postcondition obligation per return statement instead of one over the merged exit state
 	opaqueArith   bool      // integer arithmetic results as declared constants with defining equations (helps quantifier triggers)
 	preciseAppend bool       // generate quantified content facts for append (needed only by functional contracts on slices)
@@ -116,6 +117,7 @@ type loopCall struct {
 	loop int
 	call string // callee#k
 	tag  string
+	when *clause // optional: only iterations in which this holds when the back edge is taken
 	seen bool
 }
 
@@ -172,7 +174,7 @@ func (c *contracts) get(key string) *funcContract { return c.funcs[key] }
 var clauseKeywords = map[string]bool{"func": true, "pred": true, "spec": true, "requires": true, "ensures": true, "assigns": true,
 	"loop": true, "panics": true, "inline": true, "trusted": true, "noreturn": true, "props": true, "pure": true,
 	"field": true, "evaltype": true, "frameroot": true, "freshresult": true, "globalroot": true,
-	"implements": true, "recovers": true, "decreases": true, "funcfield": true, "precise-append": true, "nonnil": true, "preserves": true, "atcall": true, "atstore": true, "opaque-arith": true, "split-returns": true, "atif": true, "abstract-float": true, "fieldrange": true}
+	"implements": true, "recovers": true, "decreases": true, "funcfield": true, "precise-append": true, "nonnil": true, "preserves": true, "atcall": true, "atstore": true, "opaque-arith": true, "split-returns": true, "atif": true, "owned": true, "abstract-float": true, "fieldrange": true}
 
 func loadContractFile(c *contracts, path string, pkgpath string) error {
 	data, err := os.ReadFile(path)
@@ -301,7 +303,17 @@ func loadContractFile(c *contracts, path string, pkgpath string) error {
 			}
 			if f[1] == "calls" {
 				// loop N calls callee#k : every iteration that reaches a back edge has made that call
-				cur.loopCalls = append(cur.loopCalls, &loopCall{loop: n, call: strings.TrimSpace(body), tag: tag})
+				lc := &loopCall{loop: n, call: strings.TrimSpace(body), tag: tag}
+				// loop N calls callee#k when <expr> : only iterations in which expr holds at the back edge
+				if k := strings.Index(body, " when "); k > 0 {
+					lc.call = strings.TrimSpace(body[:k])
+					w, err := mk("loopcalls", n, strings.TrimSpace(body[k+6:]))
+					if err != nil {
+						return err
+					}
+					lc.when = w
+				}
+				cur.loopCalls = append(cur.loopCalls, lc)
 				continue
 			}
 			cl, err := mk(f[1], n, body)
@@ -324,6 +336,8 @@ func loadContractFile(c *contracts, path string, pkgpath string) error {
 			cur.opaqueArith = true
 		case "split-returns":
 			cur.splitReturns = true
+		case "owned":
+			cur.owned = append(cur.owned, strings.Fields(strings.ReplaceAll(rest, ",", " "))...)
 		case "atif":
 			// atif[tag] "<source text of the condition>" iff <expr>
 			if cur == nil || !strings.HasPrefix(rest, "\"") {
